@@ -445,8 +445,15 @@ impl State {
     }
 
     pub(crate) fn unsubscribe(&self, token: SubscriptionToken) {
-        let all_obs = self.all_observers.borrow();
-        if let Some(obs) = all_obs.get(&token.observer_id()) {
+        let id = token.observer_id();
+        let found = self.all_observers.borrow().get(&id).cloned();
+        // an observer that has not been through a stabilisation yet is only in new_observers
+        // (if that list is being processed right now, the observer is about to be in use anyway)
+        let found = found.or_else(|| {
+            let new = self.new_observers.try_borrow().ok()?;
+            new.iter().filter_map(Weak::upgrade).find(|o| o.id() == id)
+        });
+        if let Some(obs) = found {
             obs.unsubscribe(token).unwrap();
         }
     }
